@@ -120,3 +120,9 @@ def strip_repr(j):
     if isinstance(j, dict):
         return {k: strip_repr(v) for k, v in j.items() if k not in ('as', 'hex')}
     return j
+
+
+def canon_items(items):
+    """hashable rendering of a list of (key, value) pairs of real objects"""
+    import json
+    return json.dumps([[enc_key(k), enc_val(v)] for k, v in items], sort_keys=True)
